@@ -230,7 +230,24 @@ theorem closed_client_ignores_read_errors (c : Conn) (w : Bool) (hl : c.legacy =
   have hl' : (readFromStream c).1.legacy = false := hr.legacy.trans hl
   have hs' : (readFromStream c).1.st = .clientClosed := hr.st.trans hs
   unfold handleEvent
-  simp only [Bool.false_eq_true, ↓reduceIte, hl', hs', Bool.not_false, decide_true, Bool.and_self]
+  simp only [Bool.false_eq_true, ↓reduceIte, hl', hs', Bool.not_false, decide_true, Bool.and_self,
+    Bool.true_or]
+
+/-- D19. The server's own close wins over whatever the socket does afterwards as well: once
+    Connection.Close has been processed (state ServerClosing) a readable event never yields an
+    error, whatever arrives behind it (end of stream, reset, malformed bytes, stray frames) — the
+    loop goes on to write CloseOk and ends with the server's reason. -/
+theorem server_closing_ignores_read_errors (c : Conn) (w : Bool) (hl : c.legacy = false)
+    (hs : c.st.isServerClosing = true) (hnw : w = false) :
+    (handleEvent c (.stream true w)).2.2 = none := by
+  subst hnw
+  have hns : c.st ≠ .steady := by
+    intro h; rw [h] at hs; exact absurd hs (by decide)
+  have hr := (readFromStream_nonsteady hl (c := c) hns).1
+  have hl' : (readFromStream c).1.legacy = false := hr.legacy.trans hl
+  have hs' : (readFromStream c).1.st.isServerClosing = true := by rw [hr.st]; exact hs
+  unfold handleEvent
+  simp only [Bool.false_eq_true, ↓reduceIte, hl', hs', Bool.not_false, Bool.or_true, Bool.and_self]
 
 /-- The code before the repair reported the server's hang-up after CloseOk as an error. -/
 example :
